@@ -98,8 +98,7 @@ Definition process_client_fixed_header (d : dec) (data : list N) : res (dec * li
     let t := parse_sockaddr (takeN 18 (dropN 18 header)) in
     let app_len := be (takeN 1 (dropN 36 header)) in
     let d2 := set_addrs d1 s t in
-    (* MAX_UDP_IN_PAYLOAD_SIZE - app_name_length cannot underflow: app_name_length is a u8 *)
-    if MAX_UDP_IN_PAYLOAD_SIZE - app_len <? total d2 then
+    if MAX_UDP_IN_RECORD_SIZE + app_len <? total d2 then
       (if total d2 <? HDR then Panic else Ok (set_st d2 (SDropping (total d2 - HDR)), tail))
     else if HDR + app_len <=? total d2 then
       Ok (set_st d2 (SAppName app_len), tail)
